@@ -36,6 +36,31 @@ def esc(seg):
     return seg.replace("~", "~0").replace("/", "~1")
 
 
+def prod_upload(old_doc, new_doc, path="/etc/sonic/config_db.json"):
+    """bytes PCDeployerJob.parse_result schedules for upload for one JSON fragment file (None: nothing is uploaded)"""
+    import copy
+    import types
+    import annet.deploy
+    from annet import api, cli_args, diff as ann_diff
+    from annet.types import OldNewResult
+    from .. import genrun, annetenv as E
+    from .c19 import Drv
+    E.init()
+    if ann_diff.file_differ_connector._classes is None:
+        ann_diff.file_differ_connector.set(ann_diff.UnifiedFileDiffer)
+    saved = annet.deploy.get_deployer
+    annet.deploy.get_deployer = lambda: Drv()
+    try:
+        dev = genrun.Dev(E.hwview("PC", ""), "pcjson")
+        job = api.PCDeployerJob(dev, types.SimpleNamespace(entire_reload=cli_args.EntireReloadFlag.yes, acl_safe=False))
+        job.parse_result(OldNewResult(device=dev, old_json_fragment_files={path: copy.deepcopy(old_doc)},
+                                      new_json_fragment_files={path: (copy.deepcopy(new_doc), "config reload -y")}))
+        files = job.deploy_cmds.get(dev, {"files": {}})["files"]
+        return files[path].decode() if path in files else None
+    finally:
+        annet.deploy.get_deployer = saved
+
+
 def run(ctx):
     import jsonpatch
     from annet.annlib import jsontools as jt
@@ -85,6 +110,23 @@ def run(ctx):
         ctx.count()
         if rec["ops"]:
             ctx.nontrivial(json.dumps([o, n]))
+        # the production caller: what PCDeployerJob.parse_result uploads for a JSON fragment file is the patch from the device's
+        # document to the generated one (nothing is uploaded when the two print alike)
+        if len(recs) % 7 == 0 and "exc" not in rec:
+            prec = dict(rec, id="prod" + rec["id"])
+            try:
+                up = prod_upload(o, n)
+                pops = json.loads(up) if up else []
+                prec["ops"] = [encop(x) for x in pops]
+                try:
+                    out = jt.apply_patch(json.dumps(o).encode(), json.dumps(pops).encode())
+                    prec["applied"], prec["appliedOk"] = enc(json.loads(out)), True
+                except Exception:
+                    prec["applied"], prec["appliedOk"] = enc(None), False
+            except Exception as e:
+                prec.update({"ops": [], "applied": enc(None), "appliedOk": False, "exc": "PCDeployerJob: " + repr(e)})
+            recs.append(prec)
+            ctx.count()
     # ---------------- fragments and filters
     keys = ["a", "b", "a/b", "k~", "x|y", "s*", "ab", "sx", "x|*", "*"]     # some keys are spelled like glob patterns
 
